@@ -179,6 +179,23 @@ def run(ctx):
                 big.append((name, m, rng.choice([1, 17, 247]), rng.randrange(65536), 0))
         check_batch(ctx, rep, direction, big)
         rep.hist['max-size-messages:' + direction] += len(big)
+    # messages whose PDU looks like the envelope of ANOTHER framing (an MBAP header: 00 00 at offset 2, a length field that
+    # fits at offset 4; ':' / '{' / CR LF bytes in the data): the payload must never be taken for framing
+    look = []
+    for n in range(2, 12):
+        regs = [0, 2 * n - 4] + [rng.randrange(65536) for _ in range(n - 2)]
+        look.append(('resp', {'t': 'readHolding', 'registers': regs}))
+        look.append(('resp', {'t': 'readInput', 'registers': regs}))
+    for n in (2, 3, 5):
+        vals = [0x3A30, 0x310D, 0x0A7B][:n] + [0x7B7B, 0x0D0A][:max(0, n - 3)]
+        raw = [b for v in vals for b in (v >> 8, v & 255)]
+        look.append(('req', {'t': 'writeRegisters', 'address': 0, 'count': len(vals), 'byte_count': 2 * len(vals), 'values': vals, 'raw': raw}))
+        look.append(('resp', {'t': 'readHolding', 'registers': vals}))
+    for direction in ('req', 'resp'):
+        cases = [(name, m, u, rng.randrange(65536), 0) for d, m in look if d == direction for name in framelib.FRAMERS for u in (1, 17)
+                 if in_range(direction, m)]
+        check_batch(ctx, rep, direction, cases)
+        rep.hist['look-alike-messages:' + direction] += len(cases)
     strings = [[], [0], [255], [0x7B], [0, 0], [255, 255]] + [[rng.randrange(256) for _ in range(rng.choice([1, 2, 3, 8, 64, 255, 300]))] for _ in range(ctx.scale(300, 3000))]
     if not ctx.quick:
         strings += [[a] for a in range(256)] + [[a, b] for a in range(256) for b in range(256)]
